@@ -366,6 +366,9 @@ func (x *Exec) applyContract(fr *frame, st *State, fc *FuncContract, sig *types.
 			nv := vc.freshConst("hc", vs)
 			x.vc.setHeap(st, t.key, vc.bind("H", Store(h, t.ref, nv)), -1)
 		}
+	} else if sigReturnsRef(sig) {
+		// a pure callee may still allocate what it returns
+		x.growAlloc(st)
 	}
 	// ghost updates declared by the contract: "ghost name = expr" clauses are in Opts["ghost:<name>"]
 	res := x.freshResults(st, sig, sanitize(short))
@@ -403,11 +406,15 @@ func (x *Exec) applyContract(fr *frame, st *State, fc *FuncContract, sig *types.
 	// an explicit update for (opt ghost:x expr); a "modifies *" callee may change every ghost variable.
 	{
 		var gl []string
-		if fc.ModAll {
+		if fc.ModAll && !fc.Trusted {
+			// a verified "modifies *" function has no ghost frame obligation, so it may change
+			// any ghost variable; a trusted "modifies *" contract speaks about the heap only and
+			// changes the ghost variables it names
 			for n := range x.eng.ghostSorts {
 				gl = append(gl, n)
 			}
-		} else {
+		}
+		{
 			for k := range fc.Opts {
 				if strings.HasPrefix(k, "modghost:") {
 					gl = append(gl, k[9:])
@@ -1033,4 +1040,17 @@ func (x *Exec) builtinCopy(fr *frame, st *State, c *ssa.CallCommon, args []Val, 
 		idxS, na.S, x.qrange("i!q", doff.S, lim.S), srcAt(x.subS("i!q", doff.S)), darr.S, na.S), SBool))
 	x.vc.setHeap(st, key, vc.bind("E", Ite(Eq(n, vc.idx(0)), E, Store(E, dref, na))), -1)
 	return Val{T: n, Typ: types.Typ[types.Int]}, nil
+}
+
+// sigReturnsRef: some result may carry a reference (pointer, slice, map, interface, struct, ...).
+func sigReturnsRef(sig *types.Signature) bool {
+	for i := 0; i < sig.Results().Len(); i++ {
+		switch u := sig.Results().At(i).Type().Underlying().(type) {
+		case *types.Basic:
+			_ = u
+		default:
+			return true
+		}
+	}
+	return false
 }
